@@ -189,7 +189,12 @@ def abort_explore(task):
     prefix = os.path.dirname(os.path.realpath(a5.__file__)) + os.sep
     ex = sched.Explorer(prefix, 'line')
     ex.abort_exc = InjectedAbort
-    ex.after = lambda: [history.run_event(p)[0] for p in probes]
+    want = {p[0]: expected[p[0]] for p in probes}
+
+    def probe_verdict():
+        # evaluated in the forked child: only the names of deviating probes travel back (full values would be ~50 kB per abort point)
+        return [p[0] for p in probes if history.run_event(p)[0] != want[p[0]]]
+    ex.after = probe_verdict
     if cap is not None:
         ex.occ_total = ex.count_sites(lambda: history.run_event(ev))
         ex.occ_cap = cap
@@ -198,7 +203,6 @@ def abort_explore(task):
     gc.freeze()
     res = ex.explore(lambda: history.run_event(ev), lambda: None, only)
     out = []
-    want = ('ok', sched.canon([expected[p[0]] for p in probes]))
     for kk, site, va, vb in res:
         if va in ('blocked', 'crash'):
             out.append((kk, site, va))
@@ -207,8 +211,7 @@ def abort_explore(task):
         if probe is None or probe[0] != 'ok':
             out.append((kk, site, 'probe calls raised: %s' % (probe[1] if probe else 'no probe result')))
             continue
-        got = probe[1]
-        bad = [probes[i][0] for i in range(len(probes)) if i + 1 < len(got) and got[i + 1] != sched.canon(expected[probes[i][0]])]
+        bad = [x for x in probe[1][1:]] if isinstance(probe[1], tuple) else []
         out.append((kk, site, bad or None))
     return ev[0], out, ex.skipped
 
@@ -247,6 +250,8 @@ def run(tier, t0):
 
     def phase(name):
         acc.notes.append('phase %s: %.1fs' % (name, _t.time() - _tp[0]))
+        if os.environ.get('VERIF_PROGRESS'):
+            print('[C17] phase %s: %.1fs' % (name, _t.time() - _tp[0]), file=sys.stderr, flush=True)
         _tp[0] = _t.time()
 
     k = many(prepare, [tier])[0]
